@@ -4,7 +4,7 @@ import re
 
 from ..model import AnalysisError, Model, ClassInfo, walk_no_nested, norm_stmt, names_in
 from ..callgraph import CallGraph
-from .. import flow, dispatch, sem, siblings
+from .. import excmap, flow, dispatch, sem, siblings
 
 EXPLANATION = (
     'Each clause is an obligation X.690 10-11 puts on a DER encoder that is visible as a call or class relation: (R1) the DER dispatch compiles '
@@ -332,28 +332,36 @@ def check(ctx):
     for rel, fn, var in ((BER, 'encode_object_identifier_subidentifier', 'subidentifier'), (BER, 'encode_tag', 'number'), ('asn1tools/codecs/oer.py', 'encode_tag', 'number')):
         f = model.func(rel, fn)
         var = flow.param_names(f)[0]
-        shifts = {n.value.value for n in walk_no_nested(f) if isinstance(n, ast.AugAssign) and isinstance(n.op, ast.RShift) and isinstance(n.value, ast.Constant)}
+        # the function and the module-level helpers it hands the number to
+        fam = [(f, var)] + [(g, pn) for g, pn, _c in excmap.buffer_helpers(f, var)]
+        shifts = set()
         allowed_first = {31} if (rel == BER and fn == 'encode_tag') else ({63} if fn == 'encode_tag' else set())
         bad = []
-        for n in walk_no_nested(f):
-            if isinstance(n, ast.Compare) and isinstance(n.left, ast.Name) and n.left.id == var and isinstance(n.comparators[0], ast.Constant) and isinstance(n.comparators[0].value, int):
-                c = n.comparators[0].value
-                if c == 0 or c in allowed_first:
-                    continue
-                k = c
-                if isinstance(n.ops[0], (ast.LtE, ast.Gt)):
-                    k = c + 1
-                p = 128
-                while p < k:
-                    p *= 128
-                if p != k:
-                    bad.append((n, c))
-        ctx.instance('C03.R8', '%s: thresholds on %s are powers of 128 (shifts %s)' % (Model.qual(f), var, sorted(shifts)), 'ok' if not bad and shifts == {7} else 'VIOLATION', node=f, file=rel)
-        for n, c in bad:
-            ctx.violation('C03.R8', rel, n, Model.qual(f),
+        for g, gv in fam:
+            shifts |= {n.value.value for n in walk_no_nested(g) if isinstance(n, ast.AugAssign) and isinstance(n.op, ast.RShift) and isinstance(n.value, ast.Constant)}
+            shifts |= {n.right.value for n in walk_no_nested(g) if isinstance(n, ast.BinOp) and isinstance(n.op, ast.RShift) and isinstance(n.right, ast.Constant)
+                       and isinstance(n.left, ast.Name) and n.left.id == gv}
+            for n in walk_no_nested(g):
+                if isinstance(n, ast.Compare) and isinstance(n.left, ast.Name) and n.left.id == gv and isinstance(n.comparators[0], ast.Constant) and isinstance(n.comparators[0].value, int):
+                    c = n.comparators[0].value
+                    if c == 0 or c in allowed_first:
+                        continue
+                    k = c
+                    if isinstance(n.ops[0], (ast.LtE, ast.Gt)):
+                        k = c + 1
+                    p = 128
+                    while p < k:
+                        p *= 128
+                    if p != k:
+                        bad.append((n, c, g))
+        verdict = 'ok' if not bad and shifts == {7} else ('undecided' if not bad and not shifts else 'VIOLATION')
+        ctx.instance('C03.R8', '%s: thresholds on %s are powers of 128 (shifts %s)' % (Model.qual(f), var, sorted(shifts)), verdict,
+                     'no constant right shift of the number found' if verdict == 'undecided' else '', node=f, file=rel)
+        for n, c, g in bad:
+            ctx.violation('C03.R8', rel, n, Model.qual(g),
                           'base-128 encoder compares %s with %d (0x%x), which is not a power of 128: a group of 7 bits carries values below 128**k only, so numbers between the '
                           'nearest power of 128 and %d lose their top bits' % (var, c, c, c), stmt=ast.unparse(n))
-        if shifts != {7}:
+        if shifts and shifts != {7}:
             ctx.violation('C03.R8', rel, f, Model.qual(f), 'base-128 encoder must shift by 7 bits per octet, found %s' % sorted(shifts), stmt='shift width')
 
 
